@@ -56,6 +56,10 @@ CLAIMS.update({
  'C15': ('K1: real hide_uri_users_and_pwds / hide_uri_pwds over a regex engine generated at run time from the live compiled patterns, scheme/user/password/host characters are z3 code points (each path = a class of characters), oracle by provenance of output characters; K2: real construction/init of all ten built-in classes with a credentialed URI at a symbolically chosen position/nesting, captured log lines, lineage facets and VideoReader.source must not contain the secret',
          'trusted: SymRegex translation (validated against re on 48 000 concrete pairs every run); K2 string contents are concrete (shapes enumerated by choice variables); bounds: user 0-2, password 1-3, host 1-2 printable-ASCII characters, 9 left contexts, 6 tails, 9 container shapes'),
 })
+CLAIMS.update({
+ 'C11': ('K1: real Filter.parse_topics / parse_options on rendered text whose topic and option-name characters are z3 code points (SymStr; set()/dict membership by solver-decided equality) and whose forms/whitespace are symbolic choices: z3 proves parse(render(x)) == x for every character assignment; K2: real normalize_config chains of all ten built-in classes on grammar instances enumerated by choice variables: idempotence and text form == structured form',
+         'K2 is bounded exhaustive enumeration of the documented grammar by the executor\'s choice variables (string contents concrete; the solver only carries K1): stated as such in DESIGN.md; bounds: 0-3 mappings with 1-2 character names, 0-2 options, 1-2 sources/outputs/xforms per config'),
+})
 NA = {}
 props = [json.loads(l)['id'] for l in open(os.path.join(V, 'properties.jsonl'))]
 checks = []
